@@ -85,7 +85,12 @@ func runC39Once(t *testing.T, p *Plan) *simcore.Result {
 		panic(*hp)
 	}
 	if dead != "" && res.Violation == nil {
-		simcore.Harnessf("bubble ended with %s", dead)
+		if len(res.Known) == 0 {
+			simcore.Harnessf("bubble ended with %s", dead)
+		}
+		// a reboot that panicked or hit log.Crit (a recorded finding) cannot be torn down:
+		// its goroutines stay blocked in the dead bubble
+		res.Probe("goroutines-leaked-after-known-reboot-failure")
 	}
 	return res
 }
@@ -433,6 +438,11 @@ func (rb *rebooter) run(model *simdisk.FSModel, img map[string][]byte, mem *memo
 			// loadLastState finds the head block missing and calls Reset -> SetHead(0); the
 			// rewind callback dereferences bc.CurrentBlock(), which is still nil at that point
 			v.Key = "reboot-panic:reset-on-missing-head-block-dereferences-nil-current-block"
+		case v.Oracle == "reboot-log-crit" && strings.Contains(v.Msg, "Failed to repair history") && strings.Contains(v.Msg, "gap between state"):
+			// pathdb refuses to open: the loaded disk layer id is ahead of the state history
+			// freezer (seen when a journal of an earlier session is still in the database and
+			// matches the disk root again after a rollback)
+			v.Key = "reboot-log-crit:pathdb-gap-between-state-and-state-history"
 		case strings.Contains(v.Msg, "failed to decode metadata"):
 			v.Key = "reboot-failed:" + rb.modeKey() + ":torn-freezer-metadata"
 		case strings.Contains(v.Msg, "non-prunable freezer table"):
@@ -560,6 +570,11 @@ func (rb *rebooter) judge(w *world, bound int64, boundWhy string) *simcore.Viola
 	if v != nil {
 		v = pre(v)
 		v.Msg = "after re-import: " + v.Msg
+		if v.Oracle == "reboot-canon-receipts-missing" {
+			// a block stored without execution (insertSideChain) passed for "known with state"
+			// (stale state root on disk / stale pathdb journal) and became canonical
+			v.Key = "reboot-canon-receipts-missing:unexecuted-sidechain-block-canonicalised"
+		}
 		if v.Oracle == "reboot-canon-above-head" && headerWasAhead {
 			// C38 finding in its most common setting: the repair left the header head above
 			// the block head, the import of another fork moves it down and leaves the index above
